@@ -3,6 +3,7 @@ import HC.Props.C06
 import HC.Extracted.AppExit
 import HC.Proto.H2Credit
 import HC.Stream.WsExit
+import HC.Proto.H2Abandon
 /-!
 # C05 — application failures are contained and never yield a falsely complete response
 
@@ -615,5 +616,109 @@ example : (HC.Proto.H2Credit.run {} [⟨1000, true⟩, ⟨16384, false⟩, ⟨16
   decide
 
 example : (Http.appSend { method := "GET", version := "1.1", st := .response, response := some (200, false) } none).2.1 = [.streamClosed] := by decide
+
+end HC.Props.C05
+
+/- (a namespace section of its own: the names `run` / `step` / `guard` of the stream models opened above are not in scope here) -/
+namespace HC.Props.C05
+/-! ### HTTP/2: the reset of an abandoned response does not wait for the peer's flow-control credit
+
+"Promptly terminated": the RST_STREAM may not depend on what the client does about the stream's window.  The guard and the
+statements of `H2Protocol._reset_abandoned_response` are read off the source on every run (`AppExit.h2AbandonGuard`,
+`h2AbandonSteps`); `HC.Proto.H2Abandon` interprets them on a stream of the send-path model `HC.Proto.H2Send`. -/
+open HC.Proto.H2Send HC.Proto.H2Abandon HC.Stream.AppExit HC.Extracted
+
+/-- **nothing on the path waits for credit**: no statement of the source's `_reset_abandoned_response` is a
+    `buffer.drain()` (which returns only once the peer has granted the window for everything still buffered) or an
+    await this model does not know; what remains suspends for the transport write alone -/
+theorem h2_abandon_path_waits_only_for_transport : waitsOnlyForTransport AppExit.h2AbandonSteps = true := by decide
+
+/-- hence the function returns from EVERY state of the stream: whatever is buffered, whatever the windows are, whatever
+    the buffer's events say -/
+theorem h2_abandon_path_returns (x : Str) : ∃ y, runFn AppExit.h2AbandonGuard AppExit.h2AbandonSteps x = .done y := by
+  unfold runFn
+  split
+  · exact runSteps_done _ h2_abandon_path_waits_only_for_transport x
+  · exact ⟨x, rfl⟩
+
+/-- the source's guard, evaluated on the model's stream -/
+theorem h2_abandon_guard_eq (x : Str) : guardHolds AppExit.h2AbandonGuard x = (x.hasBuf && !x.complete && x.live) := by
+  simp [guardHolds, atom, AppExit.h2AbandonGuard, Bool.and_assoc]
+
+/-- **the send-path model's two ops ARE the source's statements**: wherever `abandon i` is taken from, the test it makes
+    is the source's guard (plus h2's own refusal to reset a stream twice); when a reset is due that very op hands the
+    RST_STREAM to h2, `abandonFin i` is enabled right after it and the two together leave the stream exactly as the
+    source's statement list followed by `_close_stream` does (were one of the statements able to wait, the right-hand
+    side would be `none` in the states where it does); when no reset is due the function returns at once and the stream
+    is only forgotten -/
+theorem h2_abandon_model_is_source (s s1 : St) (i : Nat) (h : step s (.abandon i) = some s1) :
+    (((guardHolds AppExit.h2AbandonGuard (s.str i) && !(s.str i).libClosed) = true) →
+      (s1.str i).libClosed = true ∧
+      (step s1 (.abandonFin i)).map (fun s2 => s2.str i) =
+        (runFn AppExit.h2AbandonGuard AppExit.h2AbandonSteps (s.str i)).result.map Str.gone) ∧
+    (((guardHolds AppExit.h2AbandonGuard (s.str i) && !(s.str i).libClosed) = false) →
+      s1.str i = (s.str i).gone ∧
+      runFn AppExit.h2AbandonGuard AppExit.h2AbandonSteps (s.str i) = .done (s.str i)) := by
+  generalize hx : s.str i = x at h ⊢
+  simp only [step, hx] at h
+  by_cases hp : x.pusher = .idle
+  · simp only [hp, bne_self_eq_false, Bool.false_eq_true, if_false] at h
+    constructor
+    · intro hg
+      rw [h2_abandon_guard_eq] at hg
+      have hc : (x.hasBuf && !x.complete && x.live && !x.libClosed) = true := hg
+      simp only [hc, if_true, Option.some.injEq] at h
+      subst h
+      simp only [Bool.and_eq_true, Bool.not_eq_true'] at hg
+      obtain ⟨⟨⟨h1, h2⟩, h3⟩, h4⟩ := hg
+      refine ⟨by simp, ?_⟩
+      simp [step, runFn, Out.result, h2_abandon_guard_eq, h1, h2, h3, h4, AppExit.h2AbandonSteps, runSteps, Str.gone, Str.closeBuf, hp]
+    · intro hg
+      rw [h2_abandon_guard_eq] at hg
+      have hc : (x.hasBuf && !x.complete && x.live && !x.libClosed) = false := hg
+      simp only [hc, Bool.false_eq_true, if_false, Option.some.injEq] at h
+      subst h
+      refine ⟨by simp, ?_⟩
+      simp only [runFn]
+      split
+      · rename_i hgd
+        rw [h2_abandon_guard_eq] at hgd
+        have : x.libClosed = true := by simp [hgd] at hg; exact hg
+        simp [AppExit.h2AbandonSteps, runSteps, this]
+      · rfl
+  · have : (x.pusher != PPc.idle) = true := by simp [hp]
+    simp [this] at h
+
+/-- **the reset step is enabled in every state** of `HC.Proto.H2Send` (which has the buffer, both windows and the send
+    task): when the application is finished with stream `i` (its sender is not inside another call), `abandon i` can be
+    taken whatever the buffer holds and whatever the stream's window, the connection's window, the frame size and the
+    send task's position are; if the response is unfinished (buffer not complete, stream registered, not yet reset) that
+    very step hands the RST_STREAM to h2, and from ANY later state in which the sender is still inside the function
+    `abandonFin i` is enabled and leaves the stream unregistered, without buffer, the sender free -/
+theorem h2_abandoned_reset_needs_no_credit (s : St) (i : Nat) (hidle : (s.str i).pusher = .idle) :
+    ∃ s1, step s (.abandon i) = some s1 ∧
+      (((s.str i).hasBuf && !(s.str i).complete && (s.str i).live && !(s.str i).libClosed) = true →
+          (s1.str i).libClosed = true ∧ (s1.str i).pusher = .inAbandon) ∧
+      (((s.str i).hasBuf && !(s.str i).complete && (s.str i).live && !(s.str i).libClosed) = false →
+          (s1.str i).live = false ∧ (s1.str i).pusher = .idle) ∧
+      ∀ s' : St, (s'.str i).pusher = .inAbandon →
+        ∃ s2, step s' (.abandonFin i) = some s2 ∧ (s2.str i).live = false ∧ (s2.str i).hasBuf = false ∧ (s2.str i).pusher = .idle := by
+  have hfin : ∀ s' : St, (s'.str i).pusher = .inAbandon →
+      ∃ s2, step s' (.abandonFin i) = some s2 ∧ (s2.str i).live = false ∧ (s2.str i).hasBuf = false ∧ (s2.str i).pusher = .idle := by
+    intro s' hs'
+    simp only [step, hs', bne_self_eq_false, Bool.false_eq_true, if_false]
+    exact ⟨_, rfl, by simp [Str.gone], by simp, by simp⟩
+  simp only [step, hidle, bne_self_eq_false, Bool.false_eq_true, if_false]
+  by_cases hc : ((s.str i).hasBuf && !(s.str i).complete && (s.str i).live && !(s.str i).libClosed) = true
+  · simp only [hc, if_true]
+    exact ⟨_, rfl, fun _ => by simp, fun h => by simp at h, hfin⟩
+  · have hc' : ((s.str i).hasBuf && !(s.str i).complete && (s.str i).live && !(s.str i).libClosed) = false := by simpa using hc
+    simp only [hc', Bool.false_eq_true, if_false]
+    exact ⟨_, rfl, fun h => by simp at h, fun _ => by simp [Str.gone, hidle], hfin⟩
+
+/-- the first theorem is needed: with a `drain()` in front of the reset the function is left waiting - no RST_STREAM -
+    whenever the buffer holds bytes (here 3, window 0) the send task has not been able to take -/
+example : runFn AppExit.h2AbandonGuard (.drain :: AppExit.h2AbandonSteps) { hasBuf := true, live := true, buf := 3, window := 0 } =
+    .waits { hasBuf := true, live := true, buf := 3, window := 0 } (.drain :: AppExit.h2AbandonSteps) := by decide
 
 end HC.Props.C05
